@@ -2,81 +2,45 @@ import Proofs.RenderRel
 import Proofs.RenderTrunc
 import Proofs.MessageCounts
 import Proofs.NameCompress
+import Proofs.RelSpec
 /-! Compression soundness lifted from one name (`loop_sound`, C01) to the whole rendering: in every state the
 renderer reaches, every compression-table entry decodes — in the buffer, whatever the twelve header octets are —
 to its key up to ASCII case. -/
 namespace Model
 
-/-- the library's `Name.__eq__`: equal up to ASCII case -/
-def NameEqv (a b : Name) : Prop := lowerName a = lowerName b
+variable {Rs : RelSpec}
 
-/-- a name the renderer can write: absolute, possibly after appending the origin, and within the DNS limits -/
-def NameOk (origin : Option Name) (n : Name) : Prop :=
-  ∃ full, wireName n origin = some full ∧ WfName full ∧ isAbs full = true
-
-theorem TableSound.mono {R out t} (h : TableSound R out t) (ext : Bytes) : TableSound R (out ++ ext) t :=
-  fun p hp => (h p hp).mono ext
-
-theorem TableSound.append {R out a b} (ha : TableSound R out a) (hb : TableSound R out b) : TableSound R out (a ++ b) := by
-  intro p hp
-  rcases List.mem_append.mp hp with h | h
-  · exact ha p h
-  · exact hb p h
-
-/-- one name written with compression at the end of a buffer whose table is sound -/
-theorem cLoop_sound (A : Bytes) (t : CTable) (full : Name) (hw : WfName full) (ha : isAbs full = true)
-    (hs : TableSound NameEqv A t) :
-    TableSound NameEqv (A ++ (cLoop A.length t full).1) (t ++ (cLoop A.length t full).2) ∧
-    ∃ ls, Dec (A ++ (cLoop A.length t full).1) A.length A.length ls (A.length + (cLoop A.length t full).1.length)
-      ∧ NameEqv (ls ++ [[]]) full := by
-  obtain ⟨ls0, hn, hp⟩ := abs_split full hw ha
-  have hplain : PlainLabels full.dropLast := by rw [hn]; simpa using hp
-  have hlast : full.getLast? = some [] := by rw [hn]; simp
-  have hhit : ∀ p ∈ t, ∀ k, lowerName p.1 = lowerName (full.drop k) → ∀ m, NameEqv m p.1 → NameEqv m (full.drop k) := by
-    intro p _ k hk m hm; exact hm.trans hk
-  obtain ⟨ext, new, h1, h2, h3, h4⟩ := loop_sound NameEqv
-    (by intro l a b hab; simp [NameEqv, lowerName] at hab ⊢; exact hab) rfl A t hs full hplain hlast hhit
-    A [] ⟨[], by simp⟩ (by simp)
-  simp only [List.append_nil] at h1 h2
-  rw [toWireCLoop_eq] at h1 h2
-  simp only at h1 h2
-  have e1 : (cLoop A.length t full).1 = ext := List.append_cancel_left h1
-  have e2 : (cLoop A.length t full).2 = new := List.append_cancel_left h2
-  rw [e1, e2]
-  refine ⟨?_, ?_⟩
-  · exact (hs.mono ext).append (fun p hp => (h4 p hp).2)
-  · obtain ⟨ls, hd, hr⟩ := h3 A.length (Nat.le_refl _)
-    refine ⟨ls, ?_, hr⟩
-    have : (A ++ ext).length = A.length + ext.length := by simp
-    rw [this] at hd
-    exact hd
+/-- a name the renderer can write: absolute, possibly after appending the origin, within the DNS limits, and in the
+class of names the relation `Rs` can handle -/
+def NameOk (Rs : RelSpec) (origin : Option Name) (n : Name) : Prop :=
+  ∃ full, wireName n origin = some full ∧ WfName full ∧ isAbs full = true ∧ Rs.Good full
 
 theorem nameExt_sound (A : Bytes) (t : CTable) (n : Name) (origin : Option Name) (q : Bytes × CTable)
-    (hok : NameOk origin n) (hs : TableSound NameEqv A t) (h : nameExt A.length t n origin = some q) :
-    TableSound NameEqv (A ++ q.1) (t ++ q.2) := by
-  obtain ⟨full, hw, hwf, habs⟩ := hok
+    (hok : NameOk Rs origin n) (hs : TableSound Rs.R A t) (h : nameExt A.length t n origin = some q) :
+    TableSound Rs.R (A ++ q.1) (t ++ q.2) := by
+  obtain ⟨full, hw, hwf, habs, hg⟩ := hok
   unfold nameExt at h
   rw [hw] at h
   simp at h
   rw [← h]
-  exact (cLoop_sound A t full hwf habs hs).1
+  exact (Rs.sound A t full hwf habs hg hs).1
 
-def RData.namesOk (origin : Option Name) : RData → Prop
+def RData.namesOk (Rs : RelSpec) (origin : Option Name) : RData → Prop
   | .raw _ => True
-  | .name1 n => NameOk origin n
-  | .mx _ n => NameOk origin n
-  | .soa m r _ _ _ _ _ => NameOk origin m ∧ NameOk origin r
+  | .name1 n => NameOk Rs origin n
+  | .mx _ n => NameOk Rs origin n
+  | .soa m r _ _ _ _ _ => NameOk Rs origin m ∧ NameOk Rs origin r
 
-def RRset.namesOk (origin : Option Name) (r : RRset) : Prop :=
-  NameOk origin r.name ∧ ∀ rd ∈ r.rdatas, rd.namesOk origin
+def RRset.namesOk (Rs : RelSpec) (origin : Option Name) (r : RRset) : Prop :=
+  NameOk Rs origin r.name ∧ ∀ rd ∈ r.rdatas, rd.namesOk Rs origin
 
-def Item.namesOk (origin : Option Name) : Item → Prop
-  | .q n _ _ => NameOk origin n
-  | .rr _ r => r.namesOk origin
+def Item.namesOk (Rs : RelSpec) (origin : Option Name) : Item → Prop
+  | .q n _ _ => NameOk Rs origin n
+  | .rr _ r => r.namesOk Rs origin
 
 theorem rdataExt_sound (A : Bytes) (t : CTable) (origin : Option Name) (rd : RData) (q : Bytes × CTable)
-    (hok : rd.namesOk origin) (hs : TableSound NameEqv A t) (h : rdataExt A.length t origin rd = some q) :
-    TableSound NameEqv (A ++ q.1) (t ++ q.2) := by
+    (hok : rd.namesOk Rs origin) (hs : TableSound Rs.R A t) (h : rdataExt A.length t origin rd = some q) :
+    TableSound Rs.R (A ++ q.1) (t ++ q.2) := by
   cases rd with
   | raw b =>
     simp [rdataExt] at h; rw [← h]; simpa using hs.mono b
@@ -107,9 +71,9 @@ theorem rdataExt_sound (A : Bytes) (t : CTable) (origin : Option Name) (rd : RDa
         simpa [List.append_assoc] using this
 
 theorem rrExt_sound (owner : Name) (rdtype rdclass ttl : Nat) (origin : Option Name) (A : Bytes) (t : CTable)
-    (rd : RData) (q : Bytes × CTable) (hown : NameOk origin owner) (hrd : rd.namesOk origin)
-    (hs : TableSound NameEqv A t) (h : rrExt owner rdtype rdclass ttl origin A.length t rd = .ok q) :
-    TableSound NameEqv (A ++ q.1) (t ++ q.2) := by
+    (rd : RData) (q : Bytes × CTable) (hown : NameOk Rs origin owner) (hrd : rd.namesOk Rs origin)
+    (hs : TableSound Rs.R A t) (h : rrExt owner rdtype rdclass ttl origin A.length t rd = .ok q) :
+    TableSound Rs.R (A ++ q.1) (t ++ q.2) := by
   unfold rrExt at h
   cases h1 : nameExt A.length t owner origin with
   | none => rw [h1] at h; simp at h
@@ -130,9 +94,9 @@ theorem rrExt_sound (owner : Name) (rdtype rdclass ttl : Nat) (origin : Option N
         simpa [List.append_assoc] using s3
 
 theorem rdsExt_sound (owner : Name) (rdtype rdclass ttl : Nat) (origin : Option Name) (rds : List RData) :
-    ∀ (A : Bytes) (t : CTable) (q : Bytes × CTable), NameOk origin owner → (∀ rd ∈ rds, rd.namesOk origin) →
-      TableSound NameEqv A t → rdsExt owner rdtype rdclass ttl origin A.length t rds = .ok q →
-      TableSound NameEqv (A ++ q.1) (t ++ q.2) := by
+    ∀ (A : Bytes) (t : CTable) (q : Bytes × CTable), NameOk Rs origin owner → (∀ rd ∈ rds, rd.namesOk Rs origin) →
+      TableSound Rs.R A t → rdsExt owner rdtype rdclass ttl origin A.length t rds = .ok q →
+      TableSound Rs.R (A ++ q.1) (t ++ q.2) := by
   induction rds with
   | nil => intro A t q _ _ hs h; simp [rdsExt] at h; rw [← h]; simpa using hs
   | cons rd rest ih =>
@@ -152,8 +116,8 @@ theorem rdsExt_sound (owner : Name) (rdtype rdclass ttl : Nat) (origin : Option 
         simpa [List.append_assoc] using s2
 
 theorem rrsetExt_sound (A : Bytes) (t : CTable) (origin : Option Name) (r : RRset) (q : Bytes × CTable × Nat)
-    (hok : r.namesOk origin) (hs : TableSound NameEqv A t) (h : rrsetExt A.length t origin r = .ok q) :
-    TableSound NameEqv (A ++ q.1) (t ++ q.2.1) := by
+    (hok : r.namesOk Rs origin) (hs : TableSound Rs.R A t) (h : rrsetExt A.length t origin r = .ok q) :
+    TableSound Rs.R (A ++ q.1) (t ++ q.2.1) := by
   unfold rrsetExt at h
   simp only at h
   split at h
@@ -171,8 +135,8 @@ theorem rrsetExt_sound (A : Bytes) (t : CTable) (origin : Option Name) (r : RRse
       exact rdsExt_sound _ _ _ _ _ _ A t q1 hok.1 hok.2 hs h1
 
 theorem itemExt_sound (A : Bytes) (t : CTable) (origin : Option Name) (it : Item) (q : Bytes × CTable × Nat)
-    (hok : it.namesOk origin) (hs : TableSound NameEqv A t) (h : itemExt A.length t origin it = .ok q) :
-    TableSound NameEqv (A ++ q.1) (t ++ q.2.1) := by
+    (hok : it.namesOk Rs origin) (hs : TableSound Rs.R A t) (h : itemExt A.length t origin it = .ok q) :
+    TableSound Rs.R (A ++ q.1) (t ++ q.2.1) := by
   cases it with
   | q n rdtype rdclass =>
     simp only [itemExt] at h
@@ -188,13 +152,13 @@ theorem itemExt_sound (A : Bytes) (t : CTable) (origin : Option Name) (it : Item
 /-! ### the renderer state -/
 
 /-- the table is sound in the buffer whatever the twelve header octets are (they are written last) -/
-def SoundSt (s : RState) : Prop :=
-  12 ≤ s.out.length ∧ ∀ H : Bytes, H.length = 12 → TableSound NameEqv (H ++ s.out.drop 12) s.tbl
+def SoundSt (Rs : RelSpec) (s : RState) : Prop :=
+  12 ≤ s.out.length ∧ ∀ H : Bytes, H.length = 12 → TableSound Rs.R (H ++ s.out.drop 12) s.tbl
 
-theorem addItem_sound (s : RState) (it : Item) (hok : it.namesOk s.origin) (hb : TblBelow s) (hs : SoundSt s) :
+theorem addItem_sound (s : RState) (it : Item) (hok : it.namesOk Rs s.origin) (hb : TblBelow s) (hs : SoundSt Rs s) :
     match s.addItem it with
-    | .ok s' => SoundSt s'
-    | .tooBig s' => SoundSt s'
+    | .ok s' => SoundSt Rs s'
+    | .tooBig s' => SoundSt Rs s'
     | .err _ => True := by
   have hspec := addItem_spec s it hb
   rw [addItem_rel] at hspec ⊢
@@ -230,12 +194,12 @@ end Model
 
 namespace Model
 
-def Message.namesOk (m : Message) : Prop :=
-  (∀ it ∈ m.items, it.namesOk m.origin) ∧ (∀ t, m.tsig = some t → NameOk m.origin t.name)
+def Message.namesOk (Rs : RelSpec) (m : Message) : Prop :=
+  (∀ it ∈ m.items, it.namesOk Rs m.origin) ∧ (∀ t, m.tsig = some t → NameOk Rs m.origin t.name)
 
 theorem addItems_sound (items : List Item) : ∀ (s s' : RState) (big : Bool),
-    (∀ it ∈ items, it.namesOk s.origin) → RInv s → SoundSt s → s.addItems items = .ok (s', big) →
-    SoundSt s' := by
+    (∀ it ∈ items, it.namesOk Rs s.origin) → RInv s → SoundSt Rs s → s.addItems items = .ok (s', big) →
+    SoundSt Rs s' := by
   induction items with
   | nil => intro s s' big _ _ hs h; simp [RState.addItems] at h; rw [← h.1]; exact hs
   | cons it rest ih =>
@@ -253,11 +217,11 @@ theorem addItems_sound (items : List Item) : ∀ (s s' : RState) (big : Bool),
       obtain ⟨hi1, _, _, _, _, ho, _⟩ := hspec.inv_ok hi
       exact ih s1 s' big (fun x hx => by rw [ho]; exact hall x (by simp [hx])) hi1 hsnd h
 
-theorem rootOk (origin : Option Name) : NameOk origin [[]] := by
-  refine ⟨[[]], by simp [wireName, isAbs], ?_, by simp [isAbs]⟩
+theorem rootOk (origin : Option Name) : NameOk Rs origin [[]] := by
+  refine ⟨[[]], by simp [wireName, isAbs], ?_, by simp [isAbs], Rs.goodRoot⟩
   refine ⟨?_, ?_, ?_⟩ <;> simp [wireLen] <;> decide
 
-theorem writeHeader_sound (s : RState) (hs : SoundSt s) : SoundSt s.writeHeader := by
+theorem writeHeader_sound (s : RState) (hs : SoundSt Rs s) : SoundSt Rs s.writeHeader := by
   obtain ⟨h12, h⟩ := hs
   refine ⟨by rw [writeHeader_length s h12]; exact h12, ?_⟩
   intro H hH
@@ -268,8 +232,8 @@ theorem writeHeader_sound (s : RState) (hs : SoundSt s) : SoundSt s.writeHeader 
   rw [this]
   exact h H hH
 
-theorem addRRset_sound (s : RState) (sec : Nat) (r : RRset) (s' : RState) (hok : r.namesOk s.origin)
-    (hb : TblBelow s) (hs : SoundSt s) (h : stepToExcept (s.addRRset sec r) = .ok s') : SoundSt s' := by
+theorem addRRset_sound (s : RState) (sec : Nat) (r : RRset) (s' : RState) (hok : r.namesOk Rs s.origin)
+    (hb : TblBelow s) (hs : SoundSt Rs s) (h : stepToExcept (s.addRRset sec r) = .ok s') : SoundSt Rs s' := by
   have := addItem_sound s (.rr sec r) hok hb hs
   simp only [RState.addItem] at this
   cases hr : s.addRRset sec r with
@@ -277,14 +241,14 @@ theorem addRRset_sound (s : RState) (sec : Nat) (r : RRset) (s' : RState) (hok :
   | tooBig s1 => rw [hr] at h; simp [stepToExcept] at h
   | err e => rw [hr] at h; simp [stepToExcept] at h
 
-theorem optRRset_namesOk (origin : Option Name) (o : EOpt) : (optRRset o).namesOk origin := by
+theorem optRRset_namesOk (origin : Option Name) (o : EOpt) : (optRRset o).namesOk Rs origin := by
   refine ⟨rootOk origin, ?_⟩
   intro rd hrd
   simp [optRRset] at hrd
   subst hrd
   trivial
 
-theorem tsigRRset_namesOk (origin : Option Name) (t : Tsig) (h : NameOk origin t.name) : (tsigRRset t).namesOk origin := by
+theorem tsigRRset_namesOk (origin : Option Name) (t : Tsig) (h : NameOk Rs origin t.name) : (tsigRRset t).namesOk Rs origin := by
   refine ⟨h, ?_⟩
   intro rd hrd
   simp [tsigRRset] at hrd
@@ -292,16 +256,16 @@ theorem tsigRRset_namesOk (origin : Option Name) (t : Tsig) (h : NameOk origin t
   trivial
 
 theorem finish_sound (r : RState) (opt : Option EOpt) (tsig : Option Tsig) (pad a b : Nat) (r' : RState)
-    (hi : RInv r) (hs : SoundSt r) (ht : ∀ t, tsig = some t → NameOk r.origin t.name)
-    (h : r.finish opt tsig pad a b = .ok r') : SoundSt r' ∧ TblBelow r' := by
+    (hi : RInv r) (hs : SoundSt Rs r) (ht : ∀ t, tsig = some t → NameOk Rs r.origin t.name)
+    (h : r.finish opt tsig pad a b = .ok r') : SoundSt Rs r' ∧ TblBelow r' := by
   unfold RState.finish at h
   simp only at h
   have hrel_below : TblBelow r.releaseReserved := hi.below
-  have hrel_s : SoundSt r.releaseReserved := hs
+  have hrel_s : SoundSt Rs r.releaseReserved := hs
   have key : ∀ r5 : RState, (match opt with
       | none => (Except.ok r.releaseReserved : Except RErr RState)
       | some o => stepToExcept (r.releaseReserved.addOpt o pad a b)) = .ok r5 →
-      SoundSt r5 ∧ TblBelow r5 ∧ r5.origin = r.origin := by
+      SoundSt Rs r5 ∧ TblBelow r5 ∧ r5.origin = r.origin := by
     intro r5 h5
     cases opt with
     | none => simp at h5; subst h5; exact ⟨hrel_s, hrel_below, rfl⟩
@@ -345,9 +309,9 @@ theorem finish_sound (r : RState) (opt : Option EOpt) (tsig : Option Tsig) (pad 
         have hb5 : TblBelow ({ r5.writeHeader with tbl := [] } : RState) := by
           intro p hp; simp at hp
         have hs5w := writeHeader_sound r5 k1
-        have hs5 : SoundSt ({ r5.writeHeader with tbl := [] } : RState) :=
+        have hs5 : SoundSt Rs ({ r5.writeHeader with tbl := [] } : RState) :=
           ⟨hs5w.1, fun H _ p hp => by simp at hp⟩
-        have hok : (tsigRRset t).namesOk ({ r5.writeHeader with tbl := [] } : RState).origin := by
+        have hok : (tsigRRset t).namesOk Rs ({ r5.writeHeader with tbl := [] } : RState).origin := by
           have : ({ r5.writeHeader with tbl := [] } : RState).origin = r.origin := k3
           rw [this]; exact tsigRRset_namesOk _ _ (ht t rfl)
         have s6 := addRRset_sound ({ r5.writeHeader with tbl := [] } : RState) _ _ r6 hok hb5 hs5 h6
@@ -355,8 +319,8 @@ theorem finish_sound (r : RState) (opt : Option EOpt) (tsig : Option Tsig) (pad 
         exact ⟨writeHeader_sound r6 s6, writeHeader_below r6 s6.1 b6.2.1⟩
 
 /-- every compression-table entry of a finished rendering is sound in the final message -/
-theorem render_sound (m : Message) (lim : Nat) (pt : Bool) (r : RState) (hok : m.namesOk)
-    (h : m.render lim pt = .ok r) : TableSound NameEqv r.out r.tbl ∧ TblBelow r := by
+theorem render_sound (m : Message) (lim : Nat) (pt : Bool) (r : RState) (hok : m.namesOk Rs)
+    (h : m.render lim pt = .ok r) : TableSound Rs.R r.out r.tbl ∧ TblBelow r := by
   unfold Message.render at h
   cases hb : m.tsigReserve with
   | error e => rw [hb] at h; simp at h
@@ -385,7 +349,7 @@ theorem render_sound (m : Message) (lim : Nat) (pt : Bool) (r : RState) (hok : m
             obtain ⟨rfl, _⟩ := reserve_ok h1
             obtain ⟨rfl, _⟩ := reserve_ok hbase
             rfl
-        have hs2 : SoundSt r2 := by
+        have hs2 : SoundSt Rs r2 := by
           have hbase := base_ok hbase
           unfold Message.base0 at hbase
           split at hbase
@@ -405,7 +369,7 @@ theorem render_sound (m : Message) (lim : Nat) (pt : Bool) (r : RState) (hok : m
           have hs3' := addItems_sound _ _ _ _ (by rw [ho2]; exact hok.1) hi2 hs2 hit
           obtain ⟨_, _, _, _, _, ho3', _⟩ := addItems_inv _ _ _ _ hi2 hit
           obtain ⟨f1, f2, _, _, _, _, f7, _, _⟩ := afterItems_ok hs
-          have hs3 : SoundSt r3 := by
+          have hs3 : SoundSt Rs r3 := by
             refine ⟨by rw [f1]; exact hs3'.1, ?_⟩
             intro H hH; rw [f1, f2]; exact hs3'.2 H hH
           have ho3 : r3.origin = m.origin := by rw [f7, ho3', ho2]
